@@ -127,6 +127,14 @@ class GridInterp(AbsInt):
                 tk = {STEPLIST: STEP, GRIDLIST: GRID, OFFLIST: OFFGRID, ORIGLIST: ORIG}.get(ik, OTHER)
                 if isinstance(g.iter, ast.Call) and isinstance(g.iter.func, ast.Name) and g.iter.func.id in ("range", "enumerate"):
                     tk = OTHER
+                if isinstance(g.iter, ast.Call) and isinstance(g.iter.func, ast.Name) and g.iter.func.id == "zip" and not g.iter.keywords \
+                        and isinstance(g.target, ast.Tuple) and len(g.target.elts) == len(g.iter.args) \
+                        and all(isinstance(x, ast.Name) for x in g.target.elts):
+                    # zip(A, B): the k-th target takes the element kind of the k-th list
+                    for x, a in zip(g.target.elts, g.iter.args):
+                        ak = self.kind(a, st, cenv)
+                        cenv[x.id] = {STEPLIST: STEP, GRIDLIST: GRID, OFFLIST: OFFGRID, ORIGLIST: ORIG}.get(ak, OTHER)
+                    continue
                 for n in ast.walk(g.target):
                     if isinstance(n, ast.Name):
                         cenv[n.id] = tk
